@@ -1293,7 +1293,8 @@ def m_entry(I, st, call):
 @model("alloc::collections::btree::map::entry::Entry::<'a, K, V, A>::or_default",
        "alloc::collections::btree::map::entry::Entry::<'a, K, V, A>::or_insert",
        "alloc::collections::btree::map::entry::Entry::<'a, K, V, A>::or_insert_with",
-       "lru_time_cache::Entry::<'a, Key, Value>::or_insert")
+       "lru_time_cache::Entry::<'a, Key, Value>::or_insert",
+       "lru_time_cache::Entry::<'a, Key, Value>::or_insert_with")
 def m_or_insert(I, st, call):
     dt = call.dest_ty
     return [(st, I.mat(st, dt, "entry"))]
